@@ -109,9 +109,15 @@ def run_check(pid, tier, seed):
             return finish_undecided_or_replay(pid, tier, seed, t0, "extraction: " + err, plan)
         attr = vx.Attribution(mp)
         # the vacuity-probe build runs concurrently with the main run
-        ppath, pmp, perr = vx.extract(bdir, probes=True, name="fb_probe", probe_prop=(None if tier == "thorough" else pid))
-        pstarted = vx.start_verus(ppath, seed=seed, multiple_errors=400) if perr is None else None
-        res = vx.run_verus(path, seed=seed)
+        NSHARD = 1
+        pshards, perr = [], None
+        for sh in range(NSHARD):
+            ppath, pmp, e = vx.extract(bdir, probes=True, name="fb_probe%d" % sh, probe_prop=(None if tier == "thorough" else pid), shard=(NSHARD, sh))
+            if e is not None:
+                perr = e
+                break
+            pshards.append((ppath, pmp, vx.start_verus(ppath, seed=seed, multiple_errors=400, threads=12, rlimit=60)))
+        res = vx.run_verus(path, seed=seed, threads=12)
         verus_info = res
         if res["json"] is None:
             return finish_undecided_or_replay(pid, tier, seed, t0, "verus produced no result: " + res["stderr"][-600:], plan)
@@ -134,6 +140,7 @@ def run_check(pid, tier, seed):
         my_units, all_units = [], []
         for u in fb:
             name = u["function"].split("::", 1)[1] if "::" in u["function"] else u["function"]
+            name = re.sub(r"^m_[A-Za-z0-9_]+::", "", name)
             mode = u.get("mode:", u.get("mode"))
             ent = {"unit": name, "mode": mode, "ok": bool(u["success"]), "smt_ms": u.get("time", 0), "rlimit": u.get("rlimit")}
             all_units.append(ent)
@@ -188,22 +195,31 @@ def run_check(pid, tier, seed):
         # -------------------------------------------------------------- vacuity probes
         probe_info = {"total": 0, "failed_as_required": 0, "not_failing": []}
         if perr is None:
-            pres = vx.finish_verus(pstarted)
-            plines = open(ppath).read().splitlines()
-            failing_lines = set()
-            for d in pres["diags"]:
-                if d.get("level") == "error" and "assertion failed" in d.get("message", ""):
-                    for sp in d.get("spans", []):
-                        failing_lines.add(sp["line_start"])
-            want = [p for p in pmp["probes"] if p["fn"].split(" for ")[-1] in fn_props and (tier == "thorough" or pid in fn_props[p["fn"].split(" for ")[-1]]["props"])]
-            for p in want:
-                pat = "vx_probe(%d)" % p["id"]
-                ln = next((k + 1 for k, l in enumerate(plines) if pat in l), None)
-                probe_info["total"] += 1
-                if ln in failing_lines:
-                    probe_info["failed_as_required"] += 1
-                else:
-                    probe_info["not_failing"].append("%s @ %s" % (p["fn"], p["pos"]))
+            for ppath, pmp, pstarted in pshards:
+                pres = vx.finish_verus(pstarted)
+                plines = open(ppath).read().splitlines()
+                failing_lines = set()
+                for d in pres["diags"]:
+                    if d.get("level") == "error" and "assertion failed" in d.get("message", ""):
+                        for sp in d.get("spans", []):
+                            failing_lines.add(sp["line_start"])
+                rl_fns = set()
+                for d in pres["diags"]:
+                    if d.get("level") == "error" and vx.RLIMIT_PAT.search(d.get("message", "")):
+                        for sp in d.get("spans", []):
+                            f = vx.Attribution(pmp).fn_at(sp["line_start"])
+                            if f:
+                                rl_fns.add(f["fn"])
+                for p in pmp["probes"]:
+                    pat = "vx_probe(%d)" % p["id"]
+                    ln = next((k + 1 for k, l in enumerate(plines) if pat in l), None)
+                    probe_info["total"] += 1
+                    if ln in failing_lines:
+                        probe_info["failed_as_required"] += 1
+                    elif p["fn"] in rl_fns:
+                        probe_info.setdefault("undetermined_rlimit", []).append("%s @ %s" % (p["fn"], p["pos"]))
+                    else:
+                        probe_info["not_failing"].append("%s @ %s" % (p["fn"], p["pos"]))
         else:
             probe_info["error"] = perr
         coverage["vacuity_probes"] = probe_info
